@@ -117,6 +117,11 @@ def check(repo: Repo) -> Result:
     namespaces(repo, res)
     filing(repo, res)
     rewrites(repo, res, t, uni)
+    from rules import c12
+    from rules.common import share
+
+    r8 = res.rule("C14-R8", "after a registry edit every spelling of the edited unit (alias, word-prefixed form) is re-read from the table: the whole unit-string cache is cleared, not only the keys that contain the symbol's text", floor=3)
+    share(res, r8, "C12", lambda t_: c12.invalidation(repo, t_), ["C12-R2"], want=lambda k: k.endswith(":unit-cache"), min_keys=3)
 
     r5 = res.rule("C14-R5", "prefixable flag of every row equals the documented one; no documented unit is missing", floor=140)
     for sym, (dim, scale, off, tol, pref, src) in SPEC.UNITS.items():
@@ -442,4 +447,5 @@ MUTANTS = [
     Mutant("title-case-filed-under-bare-unit", LUT, "generate_name_alternatives", "                            append_name(names[up + key], up + key, alt.title())", "                            append_name(names[key], up + key, alt.title())", ("C14-R6",)),
     Mutant("alias-map-written-directly", LUT, "generate_name_alternatives", "                append_name(names[key], key, alt)\n", "                append_name(names[key], key, alt)\n                inv_names[alt.upper()] = key\n", ("C14-R6",)),
     Mutant("degree-sign-to-long-alias", PAR, "parse_unyt_expr", '    unit_expr = unit_expr.replace("°", "deg")\n', '    unit_expr = unit_expr.replace("°C", "degree_celsius")\n    unit_expr = unit_expr.replace("°", "deg")\n', ("C14-R7",)),
+    Mutant("modify-selective-cache-delete", REG, "UnitRegistry.modify", "        self._unit_object_cache.clear()\n", "        for key in [k for k in self._unit_object_cache if symbol in k]:\n            del self._unit_object_cache[key]\n", ("C14-R8",)),
 ]
